@@ -25,6 +25,7 @@ func c17(r *core.Report) {
 	c17Complete(r)
 	c17NilArg(r)
 	c17FileFormat(r)
+	c17LoopCopy(r)
 	scratchEscapes(r, "C17.fresh", 1, "openapi2conv")
 	c17Required(r)
 	c17SubRefs(r)
